@@ -29,6 +29,8 @@ CHECKS = {
              text="The real systematic_resample (logsumexp, cumsum, searchsorted's binary-search scan) is encoded with weights Log(P_i) and the offset u symbolic: indices in range, idx_j = inverse CDF of (j+u)/N, counts sum to N and lie in (N w_i - 1, N w_i + 1) for ALL weights and ALL u in (0,1); E[count_i] = N w_i as an interval-length identity; resample(): every output particle equals ONE input particle on all trace leaves, weights reset to 0, log_marginal_likelihood() unchanged, diagnostic weights = normalised old weights; categorical: the index site is categorical(logits = log weights up to a constant) with sample_shape (N,).", ref="3 C12"),
  "C09": dict(technique="inductive kernel step: Jaxpr-to-SMT encoding of mh/mala/hmc from an arbitrary coherent trace (z3 NRA, case split on Cond conditions); oracle = Metropolis-Hastings rule from the reference density and jax.grad of an independent pure-JAX evaluator",
              text="One kernel step with all internal randomness symbolic: the rejected result is the input trace term-for-term; the proposed trace equals the reference proposal (regenerate-from-prior with site laws for mh; x + step^2/2 grad + step*eps with one N(0,1) draw per COORDINATE for mala; L leapfrog steps from fresh per-coordinate momentum for hmc) and is coherent; the applied log acceptance threshold equals min(0, log MH ratio) of that proposal, including the mixture-indicator branch switch. Detailed balance is then the MH theorem.", ref="3 C09"),
+ "C10": dict(technique="Jaxpr-to-SMT encoding of init/extend/change/rejuvenate/log_marginal_likelihood/estimate/rejuvenation_smc from a symbolic particle collection (z3), per-particle weight identity against reference densities",
+             text="Each SMC move is traced on a symbolic collection (arbitrary weights, arbitrary coherent vectorised trace): per particle, the new trace is coherent and holds the observation, the log weight equals old weight + log p(choices, obs) - log q(proposed choices) for the model's own proposal and for user-supplied init/extension proposals, proposed values are N distinct draws with the right parameters, rejuvenation leaves weights untouched, log_marginal_likelihood and estimate have their closed forms (log-domain), and rejuvenation_smc (cond + scan) equals the hand composition step by step. Unbiasedness of the evidence is the corollary.", ref="3 C10"),
 }
 NA = {}
 
